@@ -135,6 +135,51 @@ Section C02.
   Proof. exact (register_accepted_is_insert V cmp). Qed.
 End C02.
 
+(* non-vacuity: a concrete accepted table (siblings, a variable chain, three
+   ranges on one path and method, a wildcard) on which each kind of conflicting
+   declaration is refused and a compatible one is accepted; a registration
+   history with refusals in the middle keeps exactly the accepted ones *)
+Definition ex_ep (id m : str) (r : vrange N) : endpoint N := mkEp id m r 0 None true.
+Definition GET : str := [71;69;84].
+Definition PUT : str := [80;85;84].
+Definition ex_table : list (decl N) :=
+  [ ([PLit [97]; PVar [120]], ex_ep [49] GET (VUntil 2));
+    ([PLit [97]; PVar [120]], ex_ep [50] GET (VFromUntil 2 4));
+    ([PLit [97]; PVar [120]], ex_ep [51] PUT (VFrom 4));
+    ([PLit [97]; PVar [120]; PLit [98]], ex_ep [52] GET VAll);
+    ([PLit [102]; PWild [112]], ex_ep [53] GET VAll) ].
+Definition refused (d : decl N) : Prop :=
+  acceptable N N.compare ex_table d = false /\
+  match build N N.compare ex_table with
+  | Ok r => match insert N N.compare r d with Err _ => True | Ok _ => False end
+  | Err _ => False
+  end.
+
+Example C02_nonvacuous :
+  (match build N N.compare ex_table with Ok _ => True | Err _ => False end) /\
+  (* a shared version on the same path and method *)
+  refused ([PLit [97]; PVar [120]], ex_ep [54] GET (VFromUntil 3 9)) /\
+  (* a literal beside a variable; a variable of another name; a wildcard beside a variable *)
+  refused ([PLit [97]; PLit [99]], ex_ep [54] GET VAll) /\
+  refused ([PLit [97]; PVar [121]], ex_ep [54] PUT VAll) /\
+  refused ([PLit [97]; PWild [120]], ex_ep [54] PUT VAll) /\
+  (* a path that ends where a wildcard starts; anything beside the wildcard *)
+  refused ([PLit [102]], ex_ep [54] PUT VAll) /\
+  refused ([PLit [102]; PLit [103]], ex_ep [54] PUT VAll) /\
+  (* a repeated variable name; a segment after a wildcard *)
+  refused ([PLit [122]; PVar [120]; PVar [120]], ex_ep [54] GET VAll) /\
+  refused ([PLit [122]; PWild [120]; PLit [97]], ex_ep [54] GET VAll) /\
+  (* a disjoint range on the same path and method, and a new method, are accepted *)
+  acceptable N N.compare ex_table ([PLit [97]; PVar [120]], ex_ep [54] GET (VFrom 4)) = true /\
+  acceptable N N.compare ex_table ([PLit [102]; PWild [112]], ex_ep [54] PUT VAll) = true /\
+  (* a history: the refused declarations leave no trace *)
+  fst (register_history N N.compare
+         (ex_table ++ [([PLit [97]; PLit [99]], ex_ep [54] GET VAll);
+                       ([PLit [103]], ex_ep [55] GET VAll);
+                       ([PLit [97]; PVar [120]], ex_ep [56] GET (VFromUntil 3 9))]))
+  = ex_table ++ [([PLit [103]], ex_ep [55] GET VAll)].
+Proof. vm_compute. repeat split. Qed.
+
 Print Assumptions C02_accept_iff.
 Print Assumptions C02_table_accept_iff.
 Print Assumptions C02_overlap_rejected.
